@@ -7,8 +7,8 @@ CONSTANTS
   BinSizes = {2, 3}
   Bpjs = {1, 2, 3, 5}
   Mfss = {0, 1, 2}
-  KindSet = {"good", "dup", "qcfail", "notr1", "unpaired", "lowmq", "mp_multi", "good_s2", "good_k2", "mp_unique"}
-  KwargsSet = {"none", "empty"}
+  KindSet = {"good", "dup", "qcfail", "notr1", "nosm", "unpaired", "lowmq", "mp_multi", "good_s2", "good_k2", "mp_unique"}
+  KwargsSet = {"none", "empty", "ignore_mp"}
   UseKeySet = {TRUE, FALSE}
   NFiles = 1
   MaxRecs = 1
